@@ -1,15 +1,14 @@
 CONSTANTS
   Kinds = {"plain", "ecs", "cd", "ecscd"}
   Borns = {"msg", "wire"}
-  Flags <- MCFlags
-  Shapes = {"v4", "v6", "zero", "empty"}
-  MaxSteps = 5
+  Flags <- MCFlagsFew
+  Shapes = {"v4", "empty"}
+  MaxSteps = 6
   Births = TRUE
-  LoseMarker = TRUE
+  LoseMarker = FALSE
   EmptyUnmarked = FALSE
   SubLosesMarker = FALSE
 INIT Init
 NEXT Next
-VIEW View
-PROPERTIES NeverConsumes NeverCreates ADDiscipline
+
 CHECK_DEADLOCK FALSE
